@@ -622,12 +622,34 @@ def recompress_tree(t, manifests, assign, transform=None):
     rewrite the MANIFEST entries that refer to it (new name, true size, same hash names, true digests)"""
     import re
     names = {}                 # old path -> new path
+    # references that do not match their target before anything is touched (deliberately wrong second references): they stay wrong
+    wrong = set()
+    for pm in manifests:
+        pino = t.lookup(pm)
+        praw = OX.plain_bytes(pm, t.nodes[pino]['data']) if pino is not None else None
+        if praw is None:
+            continue
+        pd0 = os.path.dirname(pm)
+        for line in praw.decode('utf8', 'replace').split('\n'):
+            f = line.split()
+            if len(f) >= 3 and f[0] == 'MANIFEST':
+                try:
+                    tgt = OX.norm(pd0, OX.unescape(f[1]))
+                except Exception:
+                    continue
+                tino = t.lookup(tgt)
+                if tino is None or t.nodes[tino]['k'] != 'f':
+                    continue
+                td = t.nodes[tino]['data']
+                if f[2] != str(len(td)) or any(h in OX.HASHLIB_OF and OX.digest(h, td) != v for h, v in zip(f[3::2], f[4::2])):
+                    wrong.add((logical(pm), logical(tgt), tuple(f[3::2])))
     # children before parents; a Manifest referenced from the Manifest of its own directory (Manifest.files) first
     for m in sorted((x for x in manifests if x != 'Manifest'), key=lambda x: (-x.count('/'), 0 if 'Manifest.files' in x else 1)):
         ino = t.lookup(m)
         if ino is None:
             continue
         node = t.nodes[ino]
+        old_data = node['data']
         raw = OX.plain_bytes(m, node['data'])
         if raw is None:
             continue
@@ -660,7 +682,10 @@ def recompress_tree(t, manifests, assign, transform=None):
             for k, line in enumerate(lines):
                 f = line.split()
                 if len(f) >= 3 and f[0] == 'MANIFEST' and OX.norm(pd, OX.unescape(f[1])) == m:
-                    lines[k] = ET.entry_line('MANIFEST', os.path.relpath(new, pd) if pd else new, data, f[3::2])
+                    # a reference that did not match before (a deliberately wrong second reference) stays wrong
+                    was_right = (logical(pm), lm, tuple(f[3::2])) not in wrong
+                    ref = data if was_right or not data else bytes([data[0] ^ 1]) + data[1:]
+                    lines[k] = ET.entry_line('MANIFEST', os.path.relpath(new, pd) if pd else new, ref, f[3::2])
                     changed = True
             if changed:
                 ndata = '\n'.join(lines).encode('utf8')
@@ -740,6 +765,12 @@ def c13(ctx):
         for op, y in zip(ops, out):
             if op[0] == 'entry_dict' and y[0] == 'ok':
                 y = ['ok', [[d, [it for it in items if not (isinstance(it[1], list) and len(it[1]) > 1 and it[1][1] == 'MANIFEST')]] for d, items in y[1]]]
+            # a report about a Manifest file names it without its format suffix
+            lg = lambda q: logical(q) if isinstance(q, str) and os.path.basename(q).startswith('Manifest') else q
+            if op[0] == 'verify' and y[0] == 'ok' and isinstance(y[1], list) and len(y[1]) == 2 and isinstance(y[1][1], list):
+                y = ['ok', [y[1][0], [[lg(cl[0])] + list(cl[1:]) for cl in y[1][1]]]]
+            elif y[0] == 'err' and isinstance(y[1], list) and len(y[1]) >= 2 and y[1][0] == 'ManifestMismatch':
+                y = ['err', [y[1][0], lg(y[1][1])] + list(y[1][2:])]
             o2.append(y)
         return o2
     k = 0
